@@ -155,6 +155,9 @@ func cmdVC(args []string) {
 			if r.Status == "sat" && *dump {
 				fmt.Println(r.Model)
 			}
+			if r.Status != "unsat" && os.Getenv("GOVC_EXPLAIN") != "" {
+				x.explain(r.O, dir)
+			}
 		}
 		var notes []string
 		for n, c := range x.notes {
